@@ -28,6 +28,10 @@ var currentImplements = ""
 
 func NewJavaAPIListener(jIdentMap map[string]core_domain.CodeDataStruct, diMap map[string]string) *JavaAPIListener {
 	isSpringRestController = false
+	hasEnterClass = false
+	hasEnterRestController = false
+	baseApiUrl = ""
+	requestBodyClass = ""
 	currentClz = ""
 	currentPkg = ""
 	currentImplements = ""
